@@ -19,7 +19,7 @@ CHECKS = {
          "reduce/add/mul/pow/inv_mod on every triple of S(B) (B<=5, 8 thorough) and on alphabet triples up to 512 bits, moduli 0,1,2,2^k,2^B-1 included by construction.",
          "Same bounds as C01."),
  "C13": ("mc_arith", "4/C13", "exhaustive enumeration of (base,exp), (value,base), (value,degree) at small widths and perfect-power neighbourhoods at wide widths vs integer-only reference (repeated multiplication, bisection), with a per-case termination watchdog",
-         "pow/log/root families on all pairs at widths 0..8 (root: all values to 12/16 bits x all degrees), and on b^k+-1 neighbourhoods up to 1024 bits; non-termination is detected by a watchdog and reported as a violation.",
+         "pow/log/root families on all pairs at widths 0..8 (root: all values to 12/16 bits x all degrees), and on b^k+-1 neighbourhoods up to 2048 bits, plus two GIANT widths (65 536 and 131 072 bits: dense values, perfect powers and powers of 3 / 7 / 10 just below the width, +-1) for root and log; non-termination is detected by a watchdog and reported as a violation.",
          "Same bounds as C01; watchdog horizon 20 s per case."),
  "C05": ("mc_bits", "4/C05", "exhaustive enumeration of (value, amount) with EVERY amount in [0, BITS+64*LIMBS+1], all 10 primitive amount types x 4 operator shapes, and Uint-typed amounts of any magnitude, on the real code vs BigUint shifts",
          "All shift/rotate methods and every operator overload are executed for every amount in the stated range on complete value universes (all values to 10/12 bits; limb-alphabet products, run shapes and 2^k+-1 at edge widths to 1024 bits) and compared with exact integer shifts including the lost-bit flags.",
@@ -27,7 +27,7 @@ CHECKS = {
  "C06": ("mc_bits", "4/C06", "exhaustive enumeration of values (all 2^B for B<=16), all pairs for binary logic, and every index in [0,BITS+64] for accessors, vs the BigUint binary expansion",
          "Every bit-level entry point is compared with the binary expansion on complete universes, indices beyond the width included (false / None / no write / panic as documented).",
          "Same bounds as C05."),
- "C07": ("mc_conv", "4/C07", "exhaustive enumeration of ALL values of the 8/16-bit source types, 2^k+-1 alphabets of the wider ones, limb slices of every length, and a 10x10 Uint->Uint width grid, on the real code vs exact integer range/wrap/saturate semantics incl. error payloads",
+ "C07": ("mc_conv", "4/C07", "exhaustive enumeration of ALL values of the 8/16-bit source types, 2^k+-1 alphabets of the wider ones, limb slices of every length, and a 10x10 Uint->Uint width grid, on the real code vs exact integer range/wrap/saturate semantics incl. error payloads; plus a layout probe: the conversions of values stored at an address that is 8 modulo 16 vs a 16-aligned one, one process per type and library build",
          "Every conversion entry point (try/from/wrapping/saturating, value and reference forms, 13 primitive types, slices, Uint<->Uint) is executed on complete finite universes and compared including error kind and payload.",
          "32/64/128-bit sources are enumerated over boundary alphabets, not all values (thorough: all 2^32 u32/i32 at 4 widths). Trusted: rustc/LLVM casts, num-bigint."),
  "C08": ("mc_conv", "4/C08", "exhaustive enumeration of values for the encoders and of byte strings (ALL strings of length <= 2/3 at widths <= 25 bits; all run-shaped strings of every length 0..BYTES+8 at every width) for the decoders vs base-256 positional notation",
@@ -60,7 +60,7 @@ CHECKS = {
  "C20": ("mc_facade", "4/C20", "exhaustive enumeration of operand tuples x ~130 facade entry points (six operator impl shapes, shift operators for 10 amount types and Uint amounts, every forwarded Bits method/operator, num-traits, num-integer, subtle, zeroize, Sum/Product); each execution returns (facade result, inherent result) from the real code, each side under its own catch_unwind",
          "The reference is the inherent method itself, called by path on the same operands in the same execution; results, Options, flags and panics must agree (a facade may panic only where the inherent method does or where its signature cannot express the inherent None).",
          "Universes: S(B)^2 for B<=8, limb-alphabet / 2^k+-1 universes at 10 wider widths, every shift/bit argument 0..B+65. Whether the inherent methods themselves are right is decided by C01-C13."),
- "C04": ("mc_canon", "4/C04", "explicit-state search (stateright BFS, transition function = the real operations, invariants canonical + equal to the Z/2^BITS reference on every edge; full closure at 0..8 bits, bounded depth at wide widths) + exhaustive enumeration of comparisons/hashing, rejecting constructors and generators driven by enumerated RNG tapes (in two feature configurations of ruint: all features, and rand without rand-09 in harness_alt) + bounded exhaustive program-space probe of ill-formed (BITS,LIMBS) pairs through the real compiler",
+ "C04": ("mc_canon", "4/C04", "explicit-state search (stateright BFS, transition function = the real operations, invariants canonical + equal to the Z/2^BITS reference on every edge; full closure at 0..8 bits, bounded depth at wide widths) + exhaustive enumeration of comparisons/hashing, rejecting constructors and generators driven by enumerated RNG tapes (in two feature configurations of ruint: all features, and rand without rand-09 in harness_alt) + bounded exhaustive program-space probe of ill-formed (BITS,LIMBS) pairs and of contradictory const-generic arguments / unsound casts on well-formed types (against both library builds) through the real compiler",
          "Closure of the canonical set under 96 operations (incl. every compound assignment operator) is searched exhaustively (every reachable state canonical, every edge equal to the reference); ==, Hash and ordering are compared with the integers on all pairs; constructors must reject out-of-range limbs; 68 constructors x 10 ill-formed type pairs must be rejected at compile time or panic (with control programs on well-formed types).",
          "quickcheck::Gen has a private entropy-seeded RNG: its draws are sampled and labelled so, not counted as exhaustive. Closure edges without a reference are checked for canonicity only. Trusted: stateright bookkeeping (BFS vs DFS counts cross-checked), rustc."),
  "C19": ("probe", "4/C19", "bounded exhaustive enumeration of a program space (bases x digit strings x underscore placement x suffix x 16-29 widths up to 4096, pass-through tokens alone and nested) compiled through the real rustc + ruint-macro built from the working tree, vs Python integers and run-time parsing of the same digits",
